@@ -248,6 +248,25 @@ def run(chk):
                 if np.max(np.abs(a - b)) > (5e-3 if kw.get("tcc") else 2e-3) * sc + 3e-5 * kw["N0"]:
                     chk.fail("the row for age T is the same (to integrator accuracy) alone or within a schedule [real solver]",
                              dict(kw, tout=tout), dict(row=i, age=t, array=nm, max_abs_diff=float(np.max(np.abs(a - b))), scale=sc))
+    # natal kicks with an age INSIDE the BH-formation epoch requested first (the BH bins are still filling, their mean masses still moving): the
+    # later row must be what that age gives alone
+    for km_, extra_ in (("maxwellian", dict(vesc=90)), ("sigmoid", dict(kick_slope=0.4, kick_scale=18.0))):
+        kwk = dict(m_breaks=[0.1, 0.5, 1.0, 100], a_slopes=[-0.5, -1.3, -2.5], nbins=[5, 5, 20], FeH=-1.0, esc_rate=0, N0=5e5, BH_ret_dyn=0.3,
+                   natal_kicks=True, kick_method=km_, **extra_)
+        sched_ = [float(rng.choice([4.0, 5.0, 6.5])), 12000.0]
+        try:
+            full = emf.EvolvedMF.from_powerlaw(tout=sched_, **kwk)
+            one = emf.EvolvedMF.from_powerlaw(tout=[12000.0], **kwk)
+        except ValueError as e:
+            chk.notes.append("kick schedule raised ValueError (%s)" % str(e)[:60])
+            continue
+        chk.count("real-solver row comparisons")
+        for nm, a, b in (("Nr.BH", full.Nr.BH[1], one.Nr.BH[0]), ("Mr.BH", full.Mr.BH[1], one.Mr.BH[0])):
+            sc = max(float(np.sum(np.abs(b))), 1.0)
+            if float(np.max(np.abs(a - b))) > 1e-2 * sc:
+                chk.fail("BH ejection / targets at one age never affect another age", dict(kwk, tout=sched_),
+                         dict(row=1, age=12000.0, array=nm, in_schedule=[float(x) for x in a[:8]], alone=[float(x) for x in b[:8]]))
+                break
     # age 0 returns the unevolved IMF with no remnants (real solver)
     z = emf.EvolvedMF.from_powerlaw(m_breaks=[0.1, 0.5, 1.0, 100], a_slopes=[-0.5, -1.3, -2.5], nbins=[5, 5, 20], FeH=-1.0,
                                     tout=[5000.0, 0.0], esc_rate=-10.0, N0=5e5)
